@@ -20,7 +20,7 @@
      deleted nor registered again and — when x (exclusive) — nobody registered v again. *)
 From Coq Require Import List ZArith Bool Permutation Lia.
 From GZgen Require Import C13Consts.
-From GZ Require Import C13.Model C13.Proofs C13.ProofsB C13.ProofsC C13.ProofsD C13.ProofsE C13.ProofsF C13.ProofsG C13.ProofsH C13.GenProofs.
+From GZ Require Import C13.Model C13.Proofs C13.ProofsB C13.ProofsC C13.ProofsD C13.ProofsE C13.ProofsF C13.ProofsG C13.ProofsH C13.ProofsI C13.GenProofs.
 Import ListNotations.
 Open Scope Z_scope.
 
@@ -148,6 +148,30 @@ Print Assumptions dispatch_calls_exactly_the_listeners_of_its_start.
 (* non-vacuity: listeners 1 2 3; during the callback of 1, listener 1 closes itself and 4 joins *)
 Example ex_dispatch :
   dispatch_copy [1; 2; 3] (fun i => match i with O => [MLeave 1; MJoin 4] | _ => [] end) = ([1; 2; 3], [2; 3; 4]).
+Proof. reflexivity. Qed.
+
+(* A subscriber joining a watched key WHILE the watch goroutine handles events
+   (Registry.Monitor: the joiner is attached to watcher.listeners, then the known values are
+   replayed to it; [jstep] = the replay calls and the events, in the order in which they
+   happen): the joiner is called for every event handled after its join began ... *)
+Theorem joiner_never_misses_an_event : forall sched b,
+  In (JEvent b) sched -> In (blev b) (jcalls_attached sched).
+Proof. exact joiner_never_misses. Qed.
+Print Assumptions joiner_never_misses_an_event.
+
+(* ... and when those events are registrations of keys that are not in the replayed snapshot,
+   it ends up tied to the registry's values whatever the interleaving (non-exclusive: exactly
+   those bindings, hence Values() = their values; exclusive: no stale binding).  For events
+   about keys OF the snapshot see Pinned.join_replay_overtakes_event_refuted. *)
+Theorem join_overlapping_registrations_is_complete : forall x (snap regs : amap Z) l,
+  NoDup (mkeys (snap ++ regs)) ->
+  Permutation l (ladds snap ++ ladds regs) ->
+  cont_ok (snap ++ regs) (c_run (new_container x) l).
+Proof. exact join_overlapping_new_registrations. Qed.
+Print Assumptions join_overlapping_registrations_is_complete.
+
+Example ex_join_overlap :
+  c_view (c_run (new_container false) (jcalls_attached [JReplay 1 10; JEvent (BPut 3 30); JReplay 2 20])) = [20; 30; 10].
 Proof. reflexivity. Qed.
 
 (* Notifications.  Each event makes exactly one round of listener calls per UpdateListener
